@@ -174,7 +174,6 @@ struct Shared<'a> {
 struct Counters {
     ops_checked: Counter,
     merged_ops: Counter,
-    merge_rebased: Counter,
     inconclusive: Counter,
     new_fast_path: Counter,
     new_slow_path: Counter,
@@ -191,10 +190,48 @@ struct Counters {
     states_nontrivial: Counter,
 }
 
+/// Settings whose `debug.commit-timestamp` is a value of the harness clock, so that the ids of
+/// commits made by jj itself (rebased descendants, working-copy commits) are a function of
+/// the history and never of the wall clock; likewise `debug.operation-timestamp`, because the
+/// order in which concurrent operations are merged (and hence which side wins a
+/// working-copy conflict) follows the operation ids. The random generator (change ids) is
+/// retained.
+fn settings_at(prev: Option<&UserSettings>, ms: i64) -> UserSettings {
+    let secs = ms / 1000;
+    if secs >= 86_400 {
+        machinery_failure("harness clock overflow");
+    }
+    let ts = format!(
+        "1970-01-01T{:02}:{:02}:{:02}.{:03}Z",
+        secs / 3600,
+        (secs / 60) % 60,
+        secs % 60,
+        ms % 1000
+    );
+    let mut config = testutils::base_user_config();
+    config.add_layer(
+        jj_lib::config::ConfigLayer::parse(
+            jj_lib::config::ConfigSource::User,
+            &format!("debug.commit-timestamp = \"{ts}\"\ndebug.operation-timestamp = \"{ts}\"\n"),
+        )
+        .unwrap_or_else(|e| machinery_failure(&format!("config: {e}"))),
+    );
+    let r = match prev {
+        Some(p) => p.with_new_config(config),
+        None => UserSettings::from_config(config),
+    };
+    r.unwrap_or_else(|e| machinery_failure(&format!("settings: {e}")))
+}
+
 impl World {
     fn new() -> World {
-        let settings = testutils::user_settings();
-        let test_repo = TestRepo::init_with_settings(&settings);
+        let settings = settings_at(None, 1_000_000);
+        // the simple on-disk commit backend: the test backend starts a 16-thread tokio
+        // runtime per instance, which would dominate the cost of every reload
+        let test_repo = TestRepo::init_with_backend_and_settings(
+            testutils::TestRepoBackend::Simple,
+            &settings,
+        );
         let repo = test_repo.repo.clone();
         let root = repo.store().root_commit();
         World {
@@ -407,6 +444,25 @@ fn apply_act(
             Ok(vec![])
         }
         Act::SetWc(ws, x) => {
+            // precondition of the raw setter: the target is visible *now* (an earlier
+            // action of the same transaction may have restored an older view)
+            let target = id(w, *x);
+            let mut seen: HashSet<CommitId> = HashSet::new();
+            let mut stack: Vec<CommitId> = mr.view().heads().iter().cloned().collect();
+            let mut found = false;
+            while let Some(c) = stack.pop() {
+                if c == target {
+                    found = true;
+                    break;
+                }
+                if seen.insert(c.clone()) {
+                    let commit = store.get_commit(&c).map_err(|e| format!("{e}"))?;
+                    stack.extend(commit.parent_ids().iter().cloned());
+                }
+            }
+            if !found {
+                return Err("precondition: set_wc_commit target is hidden at this point".into());
+            }
             mr.set_wc_commit(WorkspaceNameBuf::from(WORKSPACES[*ws as usize]), id(w, *x))
                 .map_err(|e| format!("{e}"))?;
             Ok(vec![])
@@ -470,6 +526,20 @@ fn run_tx(
     sh: &Shared,
     history: &[Step],
 ) -> Result<(Arc<ReadonlyRepo>, Vec<Commit>), Stop> {
+    // every transaction gets its own clock value (commit and operation timestamps): load
+    // the base operation again with fresh settings
+    let t = w.tick();
+    let settings = settings_at(Some(&w.settings), t);
+    let base = jj_lib::repo::RepoLoader::init_from_file_system(
+        &settings,
+        w.test_repo.repo_path(),
+        &w.test_repo.env.default_backend_factories(),
+    )
+    .unwrap_or_else(|e| machinery_failure(&format!("cannot open repo: {e}")))
+    .load_at(base.operation())
+    .block_on()
+    .unwrap_or_else(|e| machinery_failure(&format!("cannot load base operation: {e}")));
+    let base = &base;
     let mut tx = base.start_transaction();
     let heads_before: HashSet<CommitId> = base.view().heads().clone();
     let vis_before = visible_mask(w, base.view());
@@ -479,7 +549,7 @@ fn run_tx(
         match r {
             Ok(Ok(cs)) => created.extend(cs),
             Ok(Err(e)) => {
-                if e.contains("already exists") {
+                if e.contains("already exists") || e.starts_with("precondition:") {
                     return Err(Stop::Inconclusive(e));
                 }
                 sh.ctx.violation(
@@ -638,6 +708,8 @@ fn check_view(w: &World, view: &View, what: &str, sh: &Shared, history: &[Step])
 
 /// Reloads the repo at head from disk (merging concurrent operations with the real code).
 fn reload(w: &mut World, sh: &Shared, history: &[Step]) -> Result<Arc<ReadonlyRepo>, Stop> {
+    let t = w.tick();
+    w.settings = settings_at(Some(&w.settings), t);
     let r = catch(|| {
         let loader = jj_lib::repo::RepoLoader::init_from_file_system(
             &w.settings,
@@ -1037,12 +1109,12 @@ fn enabled_acts(s: &Summary, b: &Bounds) -> Vec<Act> {
 /// Search plan: how many actions the k-th transaction after the build may have.
 fn plan(n_dag: usize, quick: bool) -> Vec<usize> {
     match (quick, n_dag) {
-        (true, 0..=1) => vec![2, 2],
-        (true, 2) => vec![2, 1],
+        (true, 0) => vec![2, 2],
+        (true, 1..=2) => vec![2, 1],
         (true, _) => vec![1, 1],
-        (false, 0..=1) => vec![2, 2, 1],
-        (false, 2) => vec![2, 2],
-        (false, 3) => vec![2, 1],
+        (false, 0) => vec![2, 2, 1],
+        (false, 1) => vec![2, 2],
+        (false, 2) => vec![2, 1, 1],
         (false, _) => vec![1, 1],
     }
 }
@@ -1082,26 +1154,18 @@ fn enabled_steps(s: &Summary, b: &Bounds, max_acts: usize, allow_at_initial: boo
 // ---------------------------------------------------------------------------------------
 
 /// Replays a history from scratch. Returns the world after the last step (None if stopped).
-fn replay(history: &[Step], sh: &Shared, check_all: bool) -> Option<World> {
+fn replay(history: &[Step], sh: &Shared) -> Option<World> {
     let mut w = World::new();
     for (k, step) in history.iter().enumerate() {
-        let last = k + 1 == history.len();
-        // earlier transitions were checked when their own history was the frontier; they
-        // are re-executed (and re-checked, silently deduplicated by the signature cap)
-        let _ = check_all;
+        // earlier transitions were already checked when their own history was the frontier;
+        // they are re-executed here with the same oracle (a failing prefix is never extended)
         match run_step(&mut w, step, sh, &history[..=k]) {
             Ok(()) => {}
             Err(Stop::Inconclusive(_)) => {
                 sh.c.inconclusive.inc();
                 return None;
             }
-            Err(Stop::Violation) => {
-                if !last {
-                    // a prefix failed: this history was not supposed to be extended
-                    return None;
-                }
-                return None;
-            }
+            Err(Stop::Violation) => return None,
         }
     }
     Some(w)
@@ -1118,7 +1182,7 @@ fn main() {
     if let Some((_sig, case)) = ctx.replay_case() {
         let history: Vec<Step> = serde_json::from_value(case["history"].clone())
             .unwrap_or_else(|e| machinery_failure(&format!("bad replay case: {e}")));
-        let _ = replay(&history, &sh, true);
+        let _ = replay(&history, &sh);
         ctx.finish(Coverage {
             evaluations: 1,
             ..Default::default()
@@ -1149,8 +1213,8 @@ fn main() {
             ctx: &ctx,
             c: &scratch,
         };
-        let k1 = replay(&probe, &sh2, false).map(|w| canonical_key(&w, &summarize(&w), &sh2));
-        let k2 = replay(&probe, &sh2, false).map(|w| canonical_key(&w, &summarize(&w), &sh2));
+        let k1 = replay(&probe, &sh2).map(|w| canonical_key(&w, &summarize(&w), &sh2));
+        let k2 = replay(&probe, &sh2).map(|w| canonical_key(&w, &summarize(&w), &sh2));
         if k1.is_none() || k1 != k2 {
             if ctx.violation_count() == 0 {
                 machinery_failure(&format!("determinism gate failed: {k1:?} vs {k2:?}"));
@@ -1158,7 +1222,13 @@ fn main() {
         }
     }
 
+    // debugging aid: C10_DUMP=<file> writes every (history, key) pair
+    let dump: Option<Mutex<std::fs::File>> = std::env::var("C10_DUMP")
+        .ok()
+        .map(|p| Mutex::new(std::fs::File::create(p).unwrap()));
     let seen_states: Mutex<HashSet<String>> = Mutex::new(HashSet::new());
+    let by_dag_size: Vec<Counter> = (0..=max_dag).map(|_| Counter::new()).collect();
+    let samples = vcommon::Samples::new(6);
     let max_depth = 1 + dags
         .iter()
         .map(|d| plan(d.len(), quick).len())
@@ -1176,12 +1246,27 @@ fn main() {
                 actions: dags.iter().map(|d| Step::Build(d.clone())).collect(),
             });
         }
-        let w = replay(history, &sh, false)?;
+        let w = replay(history, &sh)?;
         let s = summarize(&w);
         let Step::Build(dag) = &history[0] else {
             machinery_failure("history does not start with Build");
         };
         let key = format!("dag{:?}/{}", dag, canonical_key(&w, &s, &sh));
+        by_dag_size[dag.len()].inc();
+        if let Some(d) = &dump {
+            use std::io::Write as _;
+            let mut f = d.lock().unwrap();
+            let _ = writeln!(f, "{}\t{}", serde_json::to_string(history).unwrap(), key);
+        }
+        if history.len() >= 3
+            && samples.wants_more()
+            && s.heads.count_ones() >= 2
+            && !s.bookmarks.is_empty()
+            && !s.wcs.is_empty()
+            && history.iter().any(|h| matches!(h, Step::Fork(..) | Step::TxAtInitial(..)))
+        {
+            samples.offer(|| json!({"history": history, "reached_state": key}));
+        }
         {
             let mut seen = seen_states.lock().unwrap();
             if seen.insert(key.clone()) {
@@ -1203,6 +1288,16 @@ fn main() {
         Some(StepResult { key, actions })
     };
     let stats = search(&cfg, step_fn, step_label);
+    eprintln!(
+        "[C10] states={} transitions={} invalid={} capped={} per_depth={:?} depth_completed={} wall={:.1}s",
+        stats.states,
+        stats.transitions,
+        stats.invalid,
+        stats.capped,
+        stats.per_depth_states,
+        stats.max_depth_completed,
+        ctx.elapsed_s()
+    );
 
     // vacuity: every action class must have produced new states; every oracle clause must
     // have been exercised non-trivially
@@ -1222,7 +1317,10 @@ fn main() {
     }
     if ctx.violation_count() == 0 {
         for (class, (n, fresh)) in &classes {
-            if *n > 0 && *fresh == 0 {
+            // deleting a bookmark / restoring the initial view lead back to states that were
+            // reached earlier by construction; for them only "ran" is required
+            let inverse = class == "act:bm-delete" || class == "act:restore-view";
+            if *n > 0 && *fresh == 0 && !inverse {
                 machinery_failure(&format!("vacuous: action class {class} never reached a new state"));
             }
         }
@@ -1301,7 +1399,12 @@ fn main() {
             json!(format!("wall-clock cap hit; largest completed depth {}", stats.max_depth_completed)),
         );
     }
-    let samples: Vec<serde_json::Value> = stats.sample_histories.iter().map(|h| json!(h)).collect();
+    let mut samples: Vec<serde_json::Value> = samples.take();
+    samples.extend(stats.sample_histories.iter().take(2).map(|h| json!(h)));
+    extra.insert(
+        "transitions_by_initial_dag_size".into(),
+        json!(by_dag_size.iter().map(|c| c.get()).collect::<Vec<_>>()),
+    );
     let cov = Coverage {
         evaluations: stats.transitions,
         distinct_nontrivial: c.states_nontrivial.get(),
